@@ -217,6 +217,15 @@ func (env *Env) typeFromAST(x ast.Expr, src string) types.Type {
 				}
 			}
 		}
+		for _, p := range pkgs {
+			if nn, ok := objOldToCur[objKey(p, t.Name)]; ok {
+				if o := p.Scope().Lookup(nn[strings.LastIndex(nn, ".")+1:]); o != nil {
+					if tn, ok := o.(*types.TypeName); ok {
+						return tn.Type()
+					}
+				}
+			}
+		}
 	case *ast.SelectorExpr:
 		if id, ok := t.X.(*ast.Ident); ok {
 			for _, p := range e.prog.AllPackages() {
@@ -331,13 +340,18 @@ func (env *Env) ident(name string) Val {
 	for _, p := range pkgs {
 		obj := p.Scope().Lookup(name)
 		if obj == nil {
+			if nn, ok := objOldToCur[objKey(p, name)]; ok {
+				obj = p.Scope().Lookup(nn[strings.LastIndex(nn, ".")+1:])
+			}
+		}
+		if obj == nil {
 			continue
 		}
 		switch o := obj.(type) {
 		case *types.Const:
 			return e.constVal(o.Type(), o.Val())
 		case *types.Var:
-			g := shortPkg(p.Path()) + "." + name
+			g := shortPkg(p.Path()) + "." + o.Name()
 			return e.load(st, &Loc{Kind: LGlobal, Glob: g, Root: o.Type(), T: o.Type()})
 		}
 	}
